@@ -77,7 +77,7 @@ def evaluate(spec, hpath, dpath, inputs, timeout=3600):
     return obs_by_id, verdicts, errors
 
 
-def run_property(spec, tier, seed, replay=None):
+def _run_one(spec, tier, seed, replay=None):
     t0 = time.time()
     pid = spec["id"]
     group = spec["group"]
@@ -228,6 +228,68 @@ def run_property(spec, tier, seed, replay=None):
             elif kind == "INFRA":
                 infra_errors.append(detail)
 
+    return dict(spec=spec, obligations=obligations, discharged=discharged, evaluations=evaluations,
+                nontrivial=nontrivial, samples=samples, hist=hist, notes=notes,
+                proof_failures=proof_failures, tie_failures=tie_failures, prop_failures=prop_failures,
+                infra_errors=infra_errors, theorems=theorems + [t for _, ts in extra_thms for t in ts],
+                axioms_used=axioms_used, checker_cmd=checker_cmd, coq_wall=coq.get("wall", 0))
+
+
+def run_property(spec, tier, seed, replay=None):
+    return run_multi([spec], tier, seed, replay)
+
+
+def run_multi(specs, tier, seed, replay=None):
+    """Run several specs that together decide one property (same id) and merge them."""
+    t0 = time.time()
+    pid = specs[0]["id"]
+    results = []
+    for sp in specs:
+        if replay:
+            rp = json.load(open(replay))
+            if rp.get("spec") and rp["spec"] != sp.get("name", sp["group"]):
+                continue
+        results.append(_run_one(sp, tier, seed, replay))
+    if not results:
+        results = [_run_one(specs[0], tier, seed, replay)]
+    obligations = sum(r["obligations"] for r in results)
+    discharged = sum(r["discharged"] for r in results)
+    evaluations = sum(r["evaluations"] for r in results)
+    nontrivial = set()
+    samples, notes, theorems = [], [], []
+    proof_failures, tie_failures, prop_failures, infra_errors = [], [], [], []
+    hist = {}
+    axioms_used = set()
+    trusted, assumptions, rules, cmds = [], [], [], []
+    for r in results:
+        name = r["spec"].get("name", r["spec"]["group"])
+        nontrivial |= set((name, k) for k in r["nontrivial"])
+        samples += r["samples"][:3]
+        notes += ["[%s] %s" % (name, n) for n in r["notes"]]
+        theorems += r["theorems"]
+        proof_failures += r["proof_failures"]
+        tie_failures += [t + (name,) for t in r["tie_failures"]]
+        prop_failures += [t + (name,) for t in r["prop_failures"]]
+        infra_errors += r["infra_errors"]
+        for k, v in r["hist"].items():
+            hist[k] = hist.get(k, 0) + v
+        axioms_used |= r["axioms_used"]
+        for x in r["spec"]["trusted_base"]:
+            if x not in trusted:
+                trusted.append(x)
+        for x in r["spec"]["assumptions"]:
+            if x not in assumptions:
+                assumptions.append(x)
+        rules.append(r["spec"]["rule"] if len(results) == 1 else "[%s] %s" % (name, r["spec"]["rule"]))
+        if r["checker_cmd"] not in cmds:
+            cmds.append(r["checker_cmd"])
+    spec = dict(specs[0])
+    spec["trusted_base"] = trusted
+    spec["assumptions"] = assumptions
+    spec["rule"] = " ".join(rules)
+    checker_cmd = "; ".join(cmds)
+    coq = dict(wall=sum(r["coq_wall"] for r in results))
+
     # 6. verdict ---------------------------------------------------------------
     exit_code = 0
     out_lines = []
@@ -236,7 +298,7 @@ def run_property(spec, tier, seed, replay=None):
     sig = spec.get("signature") or (lambda d, o: d)
     reported = 0
     # shortest failing inputs first (cheap shrinking: prefer the smallest witnesses)
-    for (i, d, inp, obs) in sorted(prop_failures, key=lambda t: len(t[2])):
+    for (i, d, inp, obs, sname) in sorted(prop_failures, key=lambda t: len(t[2])):
         s = sig(d, obs or inp)
         kf = C.match_known(pid, s)
         if kf:
@@ -249,7 +311,8 @@ def run_property(spec, tier, seed, replay=None):
         if reported >= 3:
             continue
         reported += 1
-        path = C.write_replay(pid, dict(property=pid, seed=int(seed), failed="property checker (extracted, proved sound)",
+        path = C.write_replay(pid, dict(property=pid, seed=int(seed), spec=sname,
+                                        failed="property checker (extracted, proved sound)",
                                         detail=d, inputs=[inp], observation=obs))
         out_lines.append("VIOLATION property=%s replay=%s" % (pid, path))
     if not any(l.startswith("VIOLATION") for l in out_lines):
@@ -257,11 +320,12 @@ def run_property(spec, tier, seed, replay=None):
         if proof_failures:
             broken += ["proof obligation: " + p for p in proof_failures]
         if tie_failures:
-            broken += ["correspondence: case %s %s" % (i, d) for (i, d, _, _) in tie_failures[:5]]
+            broken += ["correspondence: [%s] case %s %s" % (t[4], t[0], t[1]) for t in tie_failures[:5]]
         if infra_errors:
             broken += ["machinery: " + e for e in infra_errors[:3]]
         if broken:
             path = C.write_replay(pid, dict(property=pid, seed=int(seed), failed=broken,
+                                            spec=(tie_failures[0][4] if tie_failures else None),
                                             inputs=[t[2] for t in tie_failures[:5]],
                                             observation=[t[3] for t in tie_failures[:5]],
                                             note="no failing input found: the property is no longer shown to hold"))
@@ -278,7 +342,7 @@ def run_property(spec, tier, seed, replay=None):
         "distinct_nontrivial": len(nontrivial),
         "rule": spec["rule"],
         "samples": samples,
-        "theorems": theorems + [t for _, ts in extra_thms for t in ts],
+        "theorems": theorems,
         "input_histogram": hist,
         "known_findings_seen": known_seen,
         "notes": notes,
